@@ -1,7 +1,7 @@
 (* Props/C10.v — Every update outcome is reported to Omaha exactly once.
-   PARTIAL at the level of theorems: the content of an event report is proved below; which reports are sent on which
-   path, session/request ids, lost-event accounting and outcome independence are decided by trace equality between
-   model and implementation on the request/lost-metric/result projection (proj_c10), and "no retry of a report" by C06's monitor. *)
+   The main theorem is C10_report_monitor_accepts_every_model_trace (below).  Session and request ids of the reports
+   (same session as the check, fresh request id) are checked on every implementation trace by the run-time monitor
+   step6ids and compared by trace equality; they are not part of the proved monitor. *)
 Require Import Verif.Model.Time Verif.Base.Bytes Verif.Model.Version Verif.Model.Proto Verif.Model.Request Verif.Model.Env Verif.Model.SM Verif.Proofs.SMPure.
 Open Scope Z_scope.
 
@@ -28,3 +28,81 @@ Theorem C10_templates :
 Proof. repeat split; reflexivity. Qed.
 
 Print Assumptions C10_event_versions.
+
+(* ---- the report monitor (Model/Monitors.v step10) accepts every trace of the model ----
+   step10 follows a check from CheckingForUpdates to its result.  Update-check requests and pings carry no event.
+   Once the attempts have produced a body, the path taken fixes what is owed:
+     unparseable body            -> one report: a parse-error event for every app of the app set, no next version;
+     install plan refused        -> one report: a construct-install-plan error event for exactly the known apps offered an update;
+     policy deferred / denied    -> one report: the deferred / denied-by-policy event for exactly those apps;
+     policy approved             -> a download-started report for exactly those apps before the installer is called, then after
+                                    the installer's answer one report with, per (offered app, result) pair of a known app, the
+                                    event of that result (finished / deferred / installation error), and, iff some app
+                                    installed, an update-complete report for exactly the apps that installed.
+   Every event carries the app's current version as previous version and a manifest version the response offered for
+   that app as next version (the one of the pair for per-app events).  An obligation is discharged by exactly one
+   request whose apps carry exactly the expected events and nothing else (report_ok), followed, if that request is not
+   delivered (transport error, non-2xx, failed authentication), by one lost-event metric per event; a report that
+   cannot be put on the wire at all is accounted by the lost-event metrics alone.  Any other request between the end of
+   the attempts and the result is rejected (no retry, no duplicate), obligations must be discharged in order before
+   the flow goes on, and the result may be announced only when nothing is owed (an empty report with no events may be skipped). *)
+Require Import Verif.Model.Monitors Verif.Proofs.Monitor Verif.Proofs.C10Proof Verif.Model.Json.
+
+Theorem C10_report_monitor_accepts_every_model_trace :
+  forall ep cfg url cup apps e, e_trace e = [] ->
+    accepts step10 (init10 cup apps) (run_case ep cfg url cup apps e) = true.
+Proof. exact model_accepted_c10. Qed.
+
+(* what a request satisfying an expectation looks like, in the property's words: no app twice, no update check or ping
+   in a report, each app's events are exactly the expected events for that app in order, every expected event's app is present *)
+Theorem C10_report_ok_meaning :
+  forall exp w, report_ok exp w = true ->
+    nodupb (map wa_id (ws_apps (w_sum w))) = true
+    /\ (forall a, In a (ws_apps (w_sum w)) -> wa_uc a = None /\ wa_ping a = None
+                  /\ evs_match (filter (fun x => bytes_eqb (x_id x) (wa_id a)) exp) (wa_events a) = true)
+    /\ (forall x, In x exp -> exists a, In a (ws_apps (w_sum w)) /\ bytes_eqb (x_id x) (wa_id a) = true).
+Proof.
+  intros exp w H. unfold report_ok in H. apply andb_prop in H. destruct H as [H H3]. apply andb_prop in H. destruct H as [H1 H2].
+  split; [exact H1|]. split.
+  - intros a Ha. rewrite forallb_forall in H2. specialize (H2 a Ha). apply andb_prop in H2. destruct H2 as [Hu He].
+    destruct (wa_uc a), (wa_ping a); try discriminate. auto.
+  - intros x Hx. rewrite forallb_forall in H3. specialize (H3 x Hx). apply existsb_exists in H3. exact H3.
+Qed.
+
+Section Examples.
+  Let w0 (evs : list (bytes * list wev)) : wire :=
+    {| w_uri := []; w_headers := []; w_body := [];
+       w_sum := {| ws_source := ScheduledTask; ws_session := None; ws_request := None;
+                   ws_apps := map (fun x => {| wa_id := fst x; wa_cohort := cohort_none;
+                                               wa_uc := None; wa_ping := None; wa_events := snd x |}) evs |} |}.
+  Let ok : http_outcome := HResp 200%N None true BBad.
+  Let d1 : doc := {| d_daystart := None; d_apps := [{| r_id := s2b "a"; r_cohort := cohort_none;
+                                                      r_uc := Some (true, Some (s2b "2.0")) |}] |}.
+  Let q0 := {| apps10 := [(s2b "a", s2b "1.0")]; cup10 := false; ph10_ := X0; todo10 := [] |}.
+  Let started := w0 [(s2b "a", [(13%N, 1%N, None, Some (s2b "1.0"), Some (s2b "2.0"))])].
+  Let finished := w0 [(s2b "a", [(14%N, 1%N, None, Some (s2b "1.0"), Some (s2b "2.0"))])].
+  Let complete := w0 [(s2b "a", [(3%N, 1%N, None, Some (s2b "1.0"), Some (s2b "2.0"))])].
+  Let pre := [AEvent (EvState (CheckingForUpdates ScheduledTask)); AHttp (w0 [(s2b "a", [])]) ok; AMetric (MRequestsPerCheck 1 true);
+              AEvent (EvServerResponse d1);
+              AInstaller (ICreatePlan params_default None d1 false) (IPlan (Some (s2b "p")));
+              APolicy (QCanStart (s2b "p")) (PUDecision UOk)].
+  Let perf := AInstaller (IPerform (s2b "p")) (IPerformed {| pa_progress := []; pa_results := [RInstalled] |}).
+  Let res := AEvent (EvResult (inr [])).
+
+  (* a complete successful install: accepted (the premises of the main theorem are met by real runs, see the harness) *)
+  Example C10_monitor_accepts_install :
+    accepts step10 q0 (pre ++ [AHttp started ok; perf; AHttp finished ok; AHttp complete ok; res]) = true.
+  Proof. vm_compute. reflexivity. Qed.
+  (* the update-complete report missing, a report sent twice, a lost report not counted, a report before its cause: rejected *)
+  Example C10_monitor_rejects :
+    accepts step10 q0 (pre ++ [AHttp started ok; perf; AHttp finished ok; res]) = false
+    /\ accepts step10 q0 (pre ++ [AHttp started ok; AHttp started ok]) = false
+    /\ accepts step10 q0 (pre ++ [AHttp started (HErr TTransport); perf]) = false
+    /\ accepts step10 q0 (pre ++ [perf]) = false
+    /\ accepts step10 q0 (pre ++ [AHttp started (HErr TTransport); AMetric (MOmahaEventLost (event_success ETUpdateDownloadStarted));
+                                   perf; AHttp finished ok; AHttp complete ok; res]) = true.
+  Proof. vm_compute. repeat split; reflexivity. Qed.
+End Examples.
+
+Print Assumptions C10_report_monitor_accepts_every_model_trace.
+Print Assumptions C10_report_ok_meaning.
